@@ -23,6 +23,7 @@ from the namespace, and for namespace entries that merely share the name of a pr
 direction word.  A rendering that does not return within the time limit is a failure, not waited for.
 """
 import collections
+import collections.abc
 import copy
 import datetime
 import decimal
@@ -93,6 +94,39 @@ class Obj:
 
     def __repr__(self):
         return 'Obj(%r)' % (self.__dict__,)
+
+
+class MissingDict(dict):
+    """a dict subclass with a __missing__ hook (subscription of an absent key yields a default): the item still does
+    not HAVE the key, `get` / `in` say so, and the hook must not be what decides the order"""
+    __slots__ = ('default',)
+
+    def __missing__(self, key):
+        return self.default
+
+
+# the items of a `mapping` loop: every kind of mapping with a `get`, among them those whose subscription never fails
+MAPPING_CLASSES = ['dict', 'dict', 'dict', 'defaultdict', 'defaultdict', 'Counter', 'MissingDict', 'MissingDict',
+                   'UserDict', 'OrderedDict']
+
+
+def mk_mapping(cls, d, default):
+    """the mapping item of class `cls` with the entries d; `default` is what a __missing__ hook hands out"""
+    if cls == 'dict':
+        return dict(d)
+    if cls == 'defaultdict':
+        return collections.defaultdict(lambda: default, d)
+    if cls == 'Counter':
+        return collections.Counter(d)           # its hook says 0
+    if cls == 'MissingDict':
+        m = MissingDict(d)
+        m.default = default
+        return m
+    if cls == 'UserDict':
+        return collections.UserDict(d)
+    if cls == 'OrderedDict':
+        return collections.OrderedDict(d)
+    raise ValueError(cls)
 
 
 def mk_key(kind, code, r):
@@ -269,16 +303,23 @@ def gen_name(r, i, used):
     return 'k%d' % i, 'plain'
 
 
-def gen_field(r, i, used=()):
+def gen_field(r, i, used=(), same_as=None):
+    """same_as: an earlier field whose attribute / mapping key this option names again (with a comparison function /
+    direction of its own: `name/nocase,name`, `k/cmp,k/rcmp/desc`, ...)"""
     kind = r.choice(KINDS)
     name, ncls = gen_name(r, i, used)
-    if used and r.random() < 0.15:
+    if same_as is not None:
+        kind, name, ncls = same_as['type'], same_as['name'], 'same_as_other_field'
+    elif used and r.random() < 0.15:
         # two options whose names differ in case / normalisation only
         vs = [v for v in name_variants(used[0]) if v not in used and '/' not in v and ',' not in v]
         if vs:
             name, ncls = r.choice(vs), 'variant_of_other_field'
-    f = {'name': name, 'name_class': ncls, 'type': kind, 'fn': None, 'conv': None, 'alias': None, 'nonone': False}
+    f = {'name': name, 'name_class': ncls, 'type': kind, 'fn': None, 'conv': None, 'alias': None, 'nonone': False,
+         'same_as': None}
     c = r.random()
+    if same_as is not None and same_as['kind'] == 'nocase' and r.random() < 0.8:
+        c = 0.85 + 0.15 * c                         # the coarser function first, ties decided by another one
     if kind == 'strnc' and c < 0.85:
         fk = 'nocase'
         if c < 0.5:
@@ -333,11 +374,27 @@ def mk_pair(pair_class, key, value):
 
 def gen_case(r, tier):
     n = r.choice([0, 1, 2, 3, 4, 5, 6, 7, 8])
-    nfields = r.choice([0, 1, 1, 1, 2, 2])
+    nfields = r.choice([0, 1, 1, 1, 2, 2, 2, 3])
     fields = []
     for i in range(nfields):
-        fields.append(gen_field(r, i, tuple(f['name'] for f in fields)))
+        # an option may name the key of an earlier option again: every option counts, with its own function / direction
+        same = r.randrange(len(fields)) if fields and r.random() < 0.3 else None
+        if same is not None and fields[same]['same_as'] is not None:
+            same = fields[same]['same_as']
+        f = gen_field(r, i, tuple(f['name'] for f in fields), same_as=None if same is None else fields[same])
+        f['same_as'] = same
+        if same is not None and f['nonone']:
+            fields[same]['nonone'] = True
+        fields.append(f)
     container = r.choice(['obj', 'obj', 'mapping', 'tuple'])
+    if nfields == 0:
+        container = r.choice(['plain', 'tuple'])
+    # what the items of a `mapping` loop are (also as the values of (key, value) pairs)
+    mapping_class = None
+    if container == 'mapping' or (container == 'tuple' and nfields and r.random() < 0.25):
+        mapping_class = r.choice(MAPPING_CLASSES)
+    # what a __missing__ hook of the items answers: a key from the middle of the domain of one of the sort keys
+    hook_default = mk_key(r.choice(fields)['type'], 1, r)[0] if fields and mapping_class else None
     # distractors: entries under the names a normalised spelling of the option would look up, with keys of the
     # same type that have nothing to do with the real ones
     taken = {f['name'] for f in fields} | {'eid'}
@@ -348,8 +405,6 @@ def gen_case(r, tier):
                 if v not in taken and r.random() < 0.8:
                     taken.add(v)
                     distract.append((v, f['type']))
-    if nfields == 0:
-        container = r.choice(['plain', 'tuple'])
     rows, elems = [], []
     elem_class = r.choice(ELEM_CLASSES)
     # (pairs are real tuples only: the rendering loops take `type(x) is tuple` for a pair, sort_sequence
@@ -364,6 +419,9 @@ def gen_case(r, tier):
     for eid in range(n):
         row, attrs = [], {}
         for f in fields:
+            if f['same_as'] is not None:
+                row.append(dict(row[f['same_as']]))     # the same entry of the element, looked at by another option
+                continue
             c = r.random()
             code = None if c < 0.12 else ('missing' if c < 0.18 else r.randrange(dom))
             if f['type'] in ('callable', 'callnear') and code == 'missing':
@@ -390,7 +448,11 @@ def gen_case(r, tier):
         elif container == 'mapping':
             d = dict(attrs)
             d['eid'] = eid
-            elems.append(d)
+            elems.append(mk_mapping(mapping_class, d, hook_default))
+        elif mapping_class:
+            d = dict(attrs)
+            d['eid'] = eid
+            elems.append(mk_pair(pair_class, 'key%d' % eid, mk_mapping(mapping_class, d, hook_default)))
         else:
             elems.append(mk_pair(pair_class, 'key%d' % eid, mk_obj(r, elem_class, eid, attrs)))
         rows.append(row)
@@ -400,7 +462,8 @@ def gen_case(r, tier):
             'elems': elems, 'sorted': nfields > 0 or r.random() < 0.8, 'item_kind': item_kind,
             'isort_spelling': r.choice(['', 'sequence-item']), 'fn_via': r.choice(['kw', 'kw', 'client', 'mapping']),
             'distractors': [v for v, _ in distract],
-            'elem_class': elem_class if container != 'plain' and container != 'mapping' else None,
+            'elem_class': elem_class if container != 'plain' and not mapping_class else None,
+            'mapping_class': mapping_class, 'hook_default': repr(hook_default) if mapping_class else None,
             'pair_class': pair_class.__name__ if container == 'tuple' else None,
             # how the sort attribute is written: sort="spec", sort=spec (when the spec allows it), bare `sort` (empty spec)
             'quoting': r.choice(['quoted', 'quoted', 'unquoted', 'bare']),
@@ -485,7 +548,7 @@ def elem_state(elems):
     out = []
     for e in elems:
         v = e[1] if isinstance(e, tuple) and len(e) == 2 else e
-        d = v if isinstance(v, dict) else getattr(v, '__dict__', None)
+        d = v if isinstance(v, (dict, collections.abc.Mapping)) else getattr(v, '__dict__', None)
         out.append([(k, id(x)) for k, x in d.items()] if d is not None else None)
     return out
 
@@ -527,7 +590,7 @@ def observe(case):
             attrs.append('reverse_expr="1==1"')
         else:
             attrs.append('reverse')
-    if case['container'] == 'mapping':
+    if case.get('mapping_class'):
         attrs.append('mapping')
     if case['batch']:
         attrs.append('size=%d' % case['batch'])
@@ -780,7 +843,11 @@ def run(res, tier, have_driver):
                 'mapping to something else (predefined names are not looked up); the sort attribute written quoted, '
                 'unquoted (when the spec has no white space) or bare (empty spec); every compilation + rendering under a '
                 'limit of 2 s CPU time / 20 s (no result = failure); the elements themselves (attribute dicts / mappings) must be left as '
-                'they were; when no key is None the shown order '
+                'they were; the items of a mapping loop (also as values of (key, value) pairs) are dict / OrderedDict / UserDict / '
+                'defaultdict / Counter / a dict subclass with __missing__ (the hook answers a key from the middle of the domain: an item '
+                'lacking the key still comes first and is not written to); 0..3 sort options, an option naming the key of an earlier '
+                'option again with a function / direction of its own (k/nocase,k ; k,k/rcmp/desc ; ...: every option counts); '
+                'when no key is None the shown order '
                 '(also a batch window, also reversed) must equal the unique stable order; non-trivial = distinct '
                 'case with >= 3 elements, a sort field and at least one duplicate or None key')
     n = 8000 if tier == 'quick' else 160000
@@ -828,6 +895,16 @@ def run(res, tier, have_driver):
                     str(len(e)) if hasattr(e, '__len__') else '-' for e in case['elems']})))
         if case.get('elem_class'):
             res.count('elem_class=' + case['elem_class'])
+        if case.get('mapping_class'):
+            res.count('mapping_items=' + case['mapping_class'] + ('_in_pairs' if case['container'] == 'tuple' else ''))
+            if case['mapping_class'] in ('defaultdict', 'Counter', 'MissingDict') and case['sorted'] and any(
+                    c['a'] == 'missing' for row in case['rows'] for c in row):
+                res.count('mapping_items_with_missing_hook_lack_a_sort_key')
+        same = [f for f in case['fields'] if f.get('same_as') is not None]
+        for f in same:
+            g = case['fields'][f['same_as']]
+            res.count('same_key_twice=%s%s_then_%s%s' % (g['kind'], '/desc' if g['desc'] else '', f['kind'],
+                                                         '/desc' if f['desc'] else ''))
         if case.get('pair_class'):
             res.count('pair_class=' + case['pair_class'])
         if case['sorted'] and 'exc' not in obs and not any_none(case):
